@@ -4,6 +4,7 @@ package main
 
 import (
 	"bufio"
+	"bytes"
 	"encoding/hex"
 	"encoding/json"
 	"flag"
@@ -507,6 +508,7 @@ func runProofSH(r *hx.Rng, kl int, gen string, batches [][]wop, keys [][]byte, t
 		t.SetSubtreeHeight(uint8(sh))
 	}
 	var root []byte
+	roots := [][]byte{} // roots[j] = root after the first j+1 batches
 	for _, b := range batches {
 		ks, vs := split(b)
 		var err error
@@ -514,6 +516,7 @@ func runProofSH(r *hx.Rng, kl int, gen string, batches [][]wop, keys [][]byte, t
 			rec.Err = "update: " + err.Error()
 			return rec
 		}
+		roots = append(roots, root)
 	}
 	if root == nil {
 		root = crypto.Hash([]byte{})
@@ -552,6 +555,29 @@ func runProofSH(r *hx.Rng, kl int, gen string, batches [][]wop, keys [][]byte, t
 	cpQ := func() []wq { return append([]wq{}, rec.Qs...) }
 	cpS := func() []string { return append([]string{}, rec.Sibs...) }
 	add(keys, rec.Sibs, rec.Qs, 1, "root")
+	// versions: the proof of the final trie against an OLDER root (rsel = 2 + number of batches applied), and a proof
+	// generated from an older root against the FINAL root; accepted only if the claims are true for that version's map
+	for _, j := range []int{len(roots) - 1, len(roots) / 2} {
+		if j < 1 || j >= len(roots) || bytes.Equal(roots[j-1], root) {
+			continue
+		}
+		if len(rec.Obs) < maxObs {
+			rec.Obs = append(rec.Obs, observe(keys, rec.Sibs, rec.Qs, roots[j-1], 2+j, kl, false, "stale-root"))
+		}
+		old := smt.NewTrie(roots[j-1], kl)
+		if sh != 0 {
+			old.SetSubtreeHeight(uint8(sh))
+		}
+		var op *smt.Proof
+		var oerr error
+		if p := try(func() { op, oerr = old.Prove(db, keys) }); p == "" && oerr == nil && op != nil {
+			add(keys, toSibs(op), toQs(op), 0, "old-version-proof")
+			if len(rec.Obs) < maxObs {
+				// and the old proof against its own root must verify (the store keeps old versions readable)
+				rec.Obs = append(rec.Obs, observe(keys, toSibs(op), toQs(op), roots[j-1], 2+j, kl, false, "old-version-proof-old-root"))
+			}
+		}
+	}
 	for i := range rec.Qs {
 		q := cpQ()
 		v := unhex(q[i][1])
